@@ -524,13 +524,51 @@ def distribution(cases, results):
             'by_bound': {str(b): sum(1 for c, _ in ex if c['bound'] == b) for b in sorted({c['bound'] for c, _ in ex})}}
 
 
+def _failing_ops():
+    """operations whose program tree violates the lock discipline, as computed in Coq on the regenerated table"""
+    import re
+    import vlib
+    try:
+        out = vlib.coq_eval(PROP, REQUIRES, 'failing_ops generated_methods', timeout=120)
+    except Exception:
+        return []
+    m = re.search(r'=\s*\[(.*?)\]\s*:\s*list string', out)
+    return re.findall(r'"([^"]+)"', m.group(1)) if m else []
+
+
+def _extra_writers(failing):
+    """public methods the property does not list (e.g. newly added ones) that can be called without arguments"""
+    import inspect
+    SB = _buffer_cls()
+    known = {'append_data', 'invalidate', 'invalidate_samples', 'resize', 'get_latest', 'get_range', 'get_range_filled',
+             'get_range_samples', 'get_samples_lb', 'get_samples_ub', 'get_time_lb', 'get_time_ub'}
+    out = []
+    for name in failing:
+        fn = vars(SB).get(name)
+        if name in known or fn is None:
+            continue
+        try:
+            ps = list(inspect.signature(fn).parameters.values())[1:]
+        except (TypeError, ValueError):
+            continue
+        if all(p.default is not inspect.Parameter.empty or p.kind in (p.VAR_POSITIONAL, p.VAR_KEYWORD) for p in ps):
+            out.append([name])
+    return out
+
+
 def search(tier, rng):
-    """Called when the regenerated obligation or the translator self-check broke: look for a torn read in the real code."""
-    budget = 45 if tier == 'quick' else 600
+    """Called when the regenerated obligation or the translator self-check broke: look for a torn read in the real code.
+    Pairs that involve an operation Coq reports as undisciplined are tried first; cheapest pre-emption bound first."""
+    budget = 30 if tier == 'quick' else 600
     t0 = time.time()
     found = []
+    failing = _failing_ops()
     pairs = list(_pairs())
-    # writers x readers that the failing operations suggest first: everything is tried anyway, cheapest bound first
+    for w in _extra_writers(failing):
+        for st in STATES:
+            for r in _readers(st):
+                pairs.append({'cap': STATES[st]['cap'], 'init': STATES[st]['init'], 'w': w, 'r': r})
+    pairs.sort(key=lambda p: -((p['w'][0] in failing) + (p['r'][0] in failing)))
     for bound in ((1, 2) if tier == 'quick' else (1, 2, 3)):
         for scn in pairs:
             if time.time() - t0 > budget or len(found) >= 3:
